@@ -3,6 +3,7 @@
 package c06
 
 import (
+	"os"
 	"fmt"
 	"math/big"
 	"sort"
@@ -187,6 +188,10 @@ func runRegistry(r *core.Run, cid string, K int) {
 			return
 		}
 	}
+	// every registry case closes with one hand-over of each kind on one chain (update from the TSS account, upgrade proposal)
+	n := s.W.Nodes[rng.Intn(len(s.W.Nodes))]
+	w.rekeyTSSBy(n, "update")
+	w.rekeyTSSBy(n, "upgrade")
 }
 
 func (w *worldA) describeModel() map[string]interface{} {
@@ -391,28 +396,16 @@ func (w *worldA) tssProof(n *core.Node, signer *core.Account) ([]byte, string) {
 
 // rekeyTSS replaces, through a governance upgrade proposal, the account the TSS client on n names. From then on only
 // the new account may drive that client; the replaced one is an ordinary account again.
-func (w *worldA) rekeyTSS(n *core.Node) {
+func (w *worldA) rekeyTSS(n *core.Node) { w.rekeyTSSBy(n, "") }
+
+func (w *worldA) rekeyTSSBy(n *core.Node, mode string) {
 	s := w.s
 	cands := []*core.Account{s.W.Relayers[1], s.W.Relayers[2], s.W.Relayers[3]}
 	next := cands[s.Rng.Intn(len(cands))]
 	if next == w.tssOf[n.Name] {
 		return
 	}
-	p, err := clienttypes.NewUpgradeClientProposal("t", "d", tssChain, &tsstypes.ClientState{TssAddress: next.Bech32()}, &tsstypes.ConsensusState{})
-	if err != nil || p.ValidateBasic() != nil {
-		return
-	}
-	handler := xibcclient.NewClientProposalHandler(n.App.XIBCKeeper.ClientKeeper)
-	cctx, write := n.Ctx().CacheContext()
-	if err := handler(cctx, p); err != nil {
-		w.r.Count("tss_rekey_refused", 1)
-		return
-	}
-	write()
 	prev := w.tssOf[n.Name]
-	w.tssOf[n.Name] = next
-	w.r.Count("tss_rekeyed_by_upgrade_proposal", 1)
-	s.W.Roll(n)
 	// both the replaced and the new account are (re-)registered as relayers for the TSS chain, so that what decides the
 	// probes below is the TSS account check alone
 	rh := xibcclient.NewClientProposalHandler(n.App.XIBCKeeper.ClientKeeper)
@@ -425,6 +418,54 @@ func (w *worldA) rekeyTSS(n *core.Node) {
 			w.model[n.Name][a.Bech32()] = regEntry{chains, addrs}
 		}
 	}
+	if byUpdate := s.Rng.Intn(2) == 0; (mode == "" && byUpdate) || mode == "update" {
+		// the TSS group itself hands the client over: an update from the current TSS account whose header names the next
+		// account (the group key bytes stay what they were - a resharing). A TSS header IS the new configuration.
+		hdr := &tsstypes.Header{TssAddress: next.Bech32()}
+		if cs, ok := n.App.XIBCKeeper.ClientKeeper.GetClientState(n.Ctx(), tssChain); ok {
+			if t, ok := cs.(*tsstypes.ClientState); ok {
+				hdr.Pubkey, hdr.PartPubkeys, hdr.Threshold = t.Pubkey, t.PartPubkeys, t.Threshold
+			}
+		}
+		msg, err := clienttypes.NewMsgUpdateClient(tssChain, hdr, prev.Acc)
+		if err != nil {
+			return
+		}
+		o := s.Deliver(n, prev, "tss-rotation-by-update", msg)
+		w.r.Eval(fmt.Sprintf("%s/%d/tss-rotation-by-update", w.cid, len(s.Log)), true)
+		if !o.OK() {
+			w.r.Count("tss_rotation_by_update_refused", 1)
+			if os.Getenv("C06_DEBUG") != "" {
+				fmt.Println("ROTATION REFUSED:", o.Log)
+			}
+			return
+		}
+		w.r.Count("tss_rekeyed_by_update_from_the_tss_account", 1)
+		stored := ""
+		if cs, ok := n.App.XIBCKeeper.ClientKeeper.GetClientState(n.Ctx(), tssChain); ok {
+			if t, ok := cs.(*tsstypes.ClientState); ok {
+				stored = t.TssAddress
+			}
+		}
+		if stored != next.Bech32() {
+			w.r.Violation(w.cid, "auth/tss/accepted-update-did-not-install-the-account-its-header-names", map[string]interface{}{"chain": n.Name, "header_names": next.Bech32(), "stored": stored, "sent_by": prev.Bech32()})
+		}
+	} else {
+		p, err := clienttypes.NewUpgradeClientProposal("t", "d", tssChain, &tsstypes.ClientState{TssAddress: next.Bech32()}, &tsstypes.ConsensusState{})
+		if err != nil || p.ValidateBasic() != nil {
+			return
+		}
+		handler := xibcclient.NewClientProposalHandler(n.App.XIBCKeeper.ClientKeeper)
+		cctx, write := n.Ctx().CacheContext()
+		if err := handler(cctx, p); err != nil {
+			w.r.Count("tss_rekey_refused", 1)
+			return
+		}
+		write()
+		w.r.Count("tss_rekeyed_by_upgrade_proposal", 1)
+	}
+	w.tssOf[n.Name] = next
+	s.W.Roll(n)
 	w.noRekey = true
 	w.attemptTSS(n, prev, "update")
 	w.attemptTSS(n, prev, "recv")
